@@ -703,3 +703,78 @@ Lemma lpm_is_longest_declared : forall S f a p loc len, lpm S f a p = Some (loc,
 Proof.
   intros S f a p loc len H. split; [exact (lpm_sound S f a p loc len H)|exact (lpm_longest S f a p loc len H)].
 Qed.
+
+(* ---------------------------------------------------------------- connection to C03 *)
+
+(* the shape in which C03 states that a driver is longest-prefix match
+   (Proofs/Location.v: cdb_is_lpm, same right-hand side for RocksDB): literal copies of
+   its [client_plen] and [lpm_result], so that those theorems apply as they are *)
+Definition c03_client_plen (a bits ones plen : N) : Prop :=
+  (bits = 128 /\ ones <= 128 /\ plen = ones) \/
+  (bits = 32 /\ ones <= 32 /\ is_v4 a = true /\ plen = 96 + ones).
+Definition c03_lpm_result (r : option (locid * N)) : option bytes * N :=
+  match r with Some (l, k) => (Some (loc_bytes l), k) | None => (None, 0) end.
+
+Lemma first_v4_val : first_v4 = 65535 * 4294967296.
+Proof. vm_compute. reflexivity. Qed.
+Lemma after_v4_val : after_v4 = 65536 * 4294967296.
+Proof. vm_compute. reflexivity. Qed.
+
+Lemma is_v4_div : forall a, is_v4 a = (a / 4294967296 =? 65535).
+Proof.
+  intro a. unfold is_v4. rewrite first_v4_val, after_v4_val.
+  pose proof (N.div_mod a 4294967296 ltac:(discriminate)) as D.
+  pose proof (N.mod_lt a 4294967296 ltac:(discriminate)) as M.
+  destruct (a / 4294967296 =? 65535) eqn:E.
+  - apply N.eqb_eq in E. apply Bool.andb_true_iff. split; [apply N.leb_le|apply N.ltb_lt]; lia.
+  - apply N.eqb_neq in E. apply Bool.andb_false_iff.
+    destruct (N.lt_ge_cases (a / 4294967296) 65535) as [L|G].
+    + left. apply N.leb_gt. lia.
+    + right. apply N.ltb_ge. lia.
+Qed.
+
+Lemma blk_size_96 : blk_size 96 = 4294967296.
+Proof. vm_compute. reflexivity. Qed.
+
+Lemma is_v4_clean_mask : forall a l, l <= 128 ->
+  is_v4 (clean_mask a l) = is_v4 a && (96 <=? l).
+Proof.
+  intros a l Hl. destruct (96 <=? l) eqn:E.
+  - apply N.leb_le in E. rewrite Bool.andb_true_r. rewrite !is_v4_div.
+    rewrite <- blk_size_96. rewrite div_clean_mask by assumption. reflexivity.
+  - apply N.leb_gt in E. rewrite Bool.andb_false_r.
+    rewrite is_v4_div. apply N.eqb_neq. unfold clean_mask.
+    (* a multiple of 2^(128-l) = 2^33 * 2^(95-l) is an even multiple of 2^32 *)
+    assert (B : blk_size l = 2 ^ (95 - l) * 8589934592).
+    { unfold blk_size. change 8589934592 with (2 ^ 33). rewrite <- N.pow_add_r. f_equal. lia. }
+    rewrite B. set (y := a / (2 ^ (95 - l) * 8589934592) * 2 ^ (95 - l)).
+    replace (a / (2 ^ (95 - l) * 8589934592) * (2 ^ (95 - l) * 8589934592)) with ((y * 2) * 4294967296) by (unfold y; lia).
+    rewrite N.div_mul by discriminate. lia.
+Qed.
+
+Theorem c03_shape_suffices : forall (nets : mapid -> list subnet) (gl : mapid -> client -> result (option bytes * N)),
+  (forall m a bits ones plen, a < two128 -> c03_client_plen a bits ones plen ->
+     gl m (mkClient (Some a) bits ones) =
+     Ok (c03_lpm_result (lpm (nets m) (fam (clean_mask a plen)) (clean_mask a plen) plen))) ->
+  forall m c, wf_client c -> exists r, gl m c = Ok r /\
+    hit_of r = lpm (nets m) (cfam c) (search_addr true c) (eff_plen c).
+Proof.
+  intros nets gl H m c [a [Hip [Ha Hc]]]. destruct c as [ip bits ones]. cbn [c_ip c_bits c_ones] in *. subst ip.
+  assert (HR : forall x, hit_of (c03_lpm_result x) = x).
+  { intros [[[l1 l2] k]|]; reflexivity. }
+  destruct Hc as [[-> Ho]|[-> [Ho V]]].
+  - rewrite (H m a 128 ones ones Ha) by (left; auto).
+    eexists. split; [reflexivity|]. rewrite HR.
+    unfold cfam, eff_plen, search_addr, c_size, c_isv4, c_masked, c_addr. cbn [c_ip c_bits c_ones].
+    assert (E : (128 <? ones) = false) by (apply N.ltb_ge; lia). rewrite E.
+    change (128 =? 32) with false. rewrite Bool.andb_false_r. rewrite N.add_0_r.
+    unfold fam. rewrite is_v4_clean_mask by assumption. reflexivity.
+  - rewrite (H m a 32 ones (96 + ones) Ha) by (right; auto).
+    eexists. split; [reflexivity|]. rewrite HR.
+    unfold cfam, eff_plen, search_addr, c_size, c_isv4, c_masked, c_addr. cbn [c_ip c_bits c_ones].
+    assert (E : (32 <? ones) = false) by (apply N.ltb_ge; lia). rewrite E.
+    change (32 =? 32) with true. rewrite V. cbn [andb].
+    replace (ones + 96) with (96 + ones) by lia.
+    unfold fam. rewrite is_v4_clean_mask by lia. rewrite V.
+    assert (E2 : (96 <=? 96 + ones) = true) by (apply N.leb_le; lia). rewrite E2. reflexivity.
+Qed.
